@@ -303,7 +303,59 @@ def c02(ctx):
     ctx.assumptions.append('-switch tie pending the optimiser model (see DESIGN.md)')
 
 
-PROPS = {'C01': c01, 'C02': c02, 'C03': c03, 'C04': c04, 'C05': c05, 'C06': c06, 'C07': c07, 'C11': c11}
+def go_tool(ctx, name):
+    """Build harness/cmd/<name> against the current /repo into the cache dir."""
+    T = ctx.T()
+    out = os.path.join(T.dir, name)
+    if not os.path.exists(out):
+        L.sh(['go', 'build', '-o', out, './cmd/' + name], cwd=os.path.join(VERIF, 'harness'))
+    return out
+
+
+def c16(ctx):
+    ctx.proofs(['PegVerif.Props.C16'])
+    T = ctx.T()
+    setx = go_tool(ctx, 'setx')
+    work = L.scratch('setx-')
+    cases = os.path.join(work, 'cases')
+    with open(cases, 'w') as fh:
+        p = subprocess.run([setx, 'gen', '-tier', ctx.tier, '-seed', str(ctx.seed)], stdout=fh, stderr=subprocess.PIPE, text=True)
+    if p.returncode != 0:
+        raise RuntimeError('setx gen failed: ' + p.stderr[-500:])
+    try:
+        stats = json.loads(p.stderr)
+    except ValueError:
+        stats = {'raw': p.stderr[-500:]}
+    with open(cases) as fh:
+        real = subprocess.run([setx, 'run', '-watch'], stdin=fh, capture_output=True, text=True, timeout=3600)
+    with open(cases) as fh:
+        model = subprocess.run([T.pegmodel, 'set'], stdin=fh, capture_output=True, text=True, timeout=3600)
+    rl, ml = real.stdout.splitlines(), model.stdout.splitlines()
+    cl = open(cases).read().splitlines()
+    n = len(cl)
+    ndiff = 0
+    if len(rl) != n or len(ml) != n:
+        ctx.add('model', 'T-set', 'line count differs: cases=%d real=%d model=%d (%s)' % (n, len(rl), len(ml), (real.stderr or model.stderr)[-200:]), {})
+    for i in range(min(n, len(rl), len(ml))):
+        if rl[i] != ml[i]:
+            ndiff += 1
+            if ndiff <= 5:
+                ctx.add('spec', 'T-set', 'set package differs from the proved set-of-integers model on case %r' % cl[i],
+                        {'case': cl[i], 'real': rl[i], 'model': ml[i], 'rerun': 'echo %r | harness setx run' % cl[i]})
+    ctx.coverage.update({
+        'evaluations': n,
+        'distinct_nontrivial': max((stats.get('cases_with') or {'x': 0}).values()),
+        'exhaustive': True,
+        'rule': 'exhaustive: every pair of insertion sequences (A,B) with |A|+|B| <= %s over a small universe, every limit, every probe; plus seeded random long sequences incl. values near 0, the limit and 2^31-2. '
+                'Per case: structure after every insertion, Has for every probe, Len, String, Copy, Union (both orders), Intersects, Complement(limit), Equal, operand-unchanged and link-consistency checks. '
+                'Non-trivial = the case contains an overlapping, adjacent or nested insertion.' % ('4' if ctx.tier == 'thorough' else '3'),
+        'samples': cl[:2] + cl[n // 2:n // 2 + 2],
+        'input_distribution': stats,
+        'differing_cases': ndiff,
+    })
+
+
+PROPS = {'C01': c01, 'C16': c16, 'C02': c02, 'C03': c03, 'C04': c04, 'C05': c05, 'C06': c06, 'C07': c07, 'C11': c11}
 
 
 def replay(ctx, path):
